@@ -578,6 +578,8 @@ def run_X7(chk):
                     f"rejected step is repeated with a request smaller than the space already built -- the call never returns")
 
 MUTANTS = [
+    ('shared Hessenberg dictionary', 'yastn/tensor/_krylov.py', 'def expand_krylov_space(self, f, tol, ncv, hermitian, V, H=None, **kwargs):', 'def expand_krylov_space(self, f, tol, ncv, hermitian, V, H={}, **kwargs):', 'U6'),
+    ('lin_solver drops the last basis vector on happy breakdown', 'yastn/krylov/_krylov.py', '    m = len(Q) if happy else len(Q) - 1\n    H[(m,m-1)] = H[(0,0)] * 0 + tol if happy else H[(m,m-1)]', '    m = len(Q) - 1\n    if happy:\n        H[(m,m-1)] = H[(0,0)] * 0 + tol', 'X10'),
     ('happy breakdown evolves the whole interval', 'yastn/krylov/_krylov.py', '        if happy:\n            tau = t_out - t_now\n', '        if happy:\n            tau = t_out\n', 'X9'),
     ('lin_solver rhs is |b|', 'yastn/krylov/_krylov.py', "    q0 = b - f(v0)\n    normv = q0.norm()\n    if normv == 0:\n        raise YastnError('Initial vector v0 of lin_solver should be nonzero.')\n    Q = [q0 / normv]", "    normv = b.norm()\n    if normv == 0:\n        raise YastnError('Initial vector v0 of lin_solver should be nonzero.')\n    q0 = b - f(v0)\n    Q = [q0 / q0.norm()]", 'X2'),
     ("Krylov space clamped by stored size", "yastn/krylov/_krylov.py", "    ncv_max = 30  # Krylov space parameters; its true maximal dimension shows up as happy breakdown", "    ncv_max = min([30, v.size])", "X6"),
